@@ -243,6 +243,11 @@ func Params() []wire.Param {
 		p(7, []byte("/dns-query{?dns}")...), p(7), p(7, 0, '"', '\\', 0xff),
 		p(8),
 		p(9, 1, 2), p(65280), p(65280, 'x', ' ', '"', '\\', 0, 0xff), p(65534, counting(64)...),
+		// a backslash in front of the first octet that needs escaping (a printer that copies a "plain" prefix
+		// unchanged), at the end of the value, in front of digits and of NUL; list punctuation without a backslash
+		p(7, 'a', '\\', 'b'), p(7, 'd', 'i', 'r', '\\'), p(7, '\\', '0', '6', '5'), p(7, 'a', '\\', '1', 'z'), p(7, '\\', 0), p(7, 'x', ' ', 'y', '\\', 'z'), p(7, ';', '(', ')', '@', ','),
+		p(65280, 'a', '\\', 'b'), p(65280, 'd', 'i', 'r', '\\'), p(65280, '\\', '0', '6', '5'), p(65280, 'a', '\\', '1', 'z'), p(65280, '\\', 0), p(65280, ';', '(', ')', '@', ','),
+		p(1, 4, '\\', '0', '6', '5'), p(1, 2, 'a', '\\'), p(1, 2, '\\', ','),
 	}
 }
 
